@@ -10,6 +10,12 @@ REPO = os.environ.get("VERIF_REPO", "/repo")
 RES = os.path.join(REPO, "sharepoint2text", "tests", "resources")
 VALUES = {"title": " Title é中 1 ", "creator": "Créator  Two", "subject": "Subject/3", "keywords": "k1, k2;k3", "description": "Desc\nline 4"}
 
+# a second set: plain text that LOOKS like an escape of some other layer (OOXML _xHHHH_, URL, backslash, character reference,
+# format fields) -- stored properties are plain strings, none of it may be decoded
+LOOKALIKE = {"title": "budget_x2024_final %41 \\u0042", "creator": "svc_x0041_runner &#67;", "subject": "a_x000D_b {0} %(x)s",
+             "keywords": "k_x0020_1;\\n;=?utf-8?q?x?=", "description": "d_x0044_ &amp;amp; \\x41 $HOME"}
+VALUE_SETS = [VALUES, LOOKALIKE]
+
 CORE = ('<?xml version="1.0" encoding="UTF-8" standalone="yes"?><cp:coreProperties '
         'xmlns:cp="http://schemas.openxmlformats.org/package/2006/metadata/core-properties" xmlns:dc="http://purl.org/dc/elements/1.1/" '
         'xmlns:dcterms="http://purl.org/dc/terms/" xmlns:xsi="http://www.w3.org/2001/XMLSchema-instance">'
@@ -34,13 +40,13 @@ def rezip(path, repl):
 
 
 def ooxml(fixture):
-    return rezip(os.path.join(RES, fixture), {"docProps/core.xml": lambda d: CORE.format(**{k: esc(v) for k, v in VALUES.items()}).encode("utf-8")})
+    return rezip(os.path.join(RES, fixture), {"docProps/core.xml": lambda d: CORE.format(**{k: esc(v) for k, v in CUR.items()}).encode("utf-8")})
 
 
 def odf(fixture):
     def meta(d):
         s = d.decode("utf-8")
-        body = "".join(f"<{t}>{esc(VALUES[p])}</{t}>" for p, t in (("title", "dc:title"), ("creator", "dc:creator"), ("subject", "dc:subject"),
+        body = "".join(f"<{t}>{esc(CUR[p])}</{t}>" for p, t in (("title", "dc:title"), ("creator", "dc:creator"), ("subject", "dc:subject"),
                                                                     ("keywords", "meta:keyword"), ("description", "dc:description")))
         s = re.sub(r"<(dc:title|dc:creator|dc:subject|meta:keyword|dc:description)>.*?</\1>", "", s, flags=re.S)
         s = re.sub(r"<(dc:title|dc:creator|dc:subject|meta:keyword|dc:description)/>", "", s)
@@ -57,14 +63,14 @@ def epub(fixture):
     def fix(d):
         s = d.decode("utf-8")
         s = re.sub(r"<dc:(title|creator|subject|description)[^>]*>.*?</dc:\1>", "", s, flags=re.S)
-        body = "".join(f"<dc:{p}>{esc(VALUES[p])}</dc:{p}>" for p in ("title", "creator", "subject", "description"))
+        body = "".join(f"<dc:{p}>{esc(CUR[p])}</dc:{p}>" for p in ("title", "creator", "subject", "description"))
         return re.sub(r"(<(?:opf:)?metadata[^>]*>)", lambda m: m.group(1) + body, s, count=1).encode("utf-8")
     return rezip(path, {opf: fix})
 
 
 def html():
-    v = VALUES
-    return (f'<html><head><title>{esc(v["title"])}</title><meta name="author" content="{v["creator"]}">'
+    v = {k: esc(x).replace('"', "&quot;") for k, x in CUR.items()}
+    return (f'<html><head><title>{v["title"]}</title><meta name="author" content="{v["creator"]}">'
             f'<meta name="keywords" content="{v["keywords"]}"><meta name="description" content="{v["description"]}"></head><body><p>x</p></body></html>').encode("utf-8")
 
 
@@ -91,14 +97,33 @@ def first_fixture(d, ext):
     return os.path.relpath(fs[0], RES)
 
 
+CUR = VALUES
+
+
 def run_case(reader):
+    """All value sets; returns (mismatches, document name)."""
+    global CUR
+    out, name = [], reader
+    for vs in VALUE_SETS:
+        CUR = vs
+        try:
+            bad, name = _run_case(reader)
+        finally:
+            CUR = VALUES
+        out.extend(bad)
+        if reader == "rtf":
+            break
+    return out, name
+
+
+def _run_case(reader):
     import sharepoint2text
     if reader == "rtf":
         data, vals = rtf()
         name, fields, mode = "x.rtf", {"title": "title", "creator": "author", "subject": "subject", "keywords": "keywords", "description": "comments"}, "exact"
     else:
         name, build, fields, mode = CASES[reader]
-        data, vals = build(), VALUES
+        data, vals = build(), CUR
     res = list(sharepoint2text.get_extractor(name)(io.BytesIO(data), name))
     md = res[0].get_metadata()
     bad = []
